@@ -552,8 +552,24 @@ def raw_docs(rng, texts, n):
     return out
 
 
-def run_dec(docs, bat):
-    lines = "\n".join(json.dumps({"id": i, "kind": d["kind"], "doc": d["text"].hex(), "bat": bat if isinstance(bat, int) else bat(i, d)})
-                      for i, d in enumerate(docs)) + "\n"
-    rows, r = common.run_harness(["c09-dec"], stdin=lines, timeout=1200, check=False)
-    return rows, r
+def run_dec(docs, bat, workers=8):
+    """Decode (and exercise) the documents with the Go harness, in `workers` parallel processes (interleaved
+    split).  Returns (rows, failed) where failed = list of (returncode, stderr, first id not answered)."""
+    from concurrent.futures import ThreadPoolExecutor
+    items = [{"id": i, "kind": d["kind"], "doc": d["text"].hex(), "bat": bat if isinstance(bat, int) else bat(i, d)} for i, d in enumerate(docs)]
+    chunks = [items[k::workers] for k in range(workers)]
+    chunks = [c for c in chunks if c]
+
+    def one(chunk):
+        rows, r = common.run_harness(["c09-dec"], stdin="\n".join(json.dumps(x) for x in chunk) + "\n", timeout=1500, check=False)
+        fail = None
+        if r.returncode != 0:
+            done = {x["id"] for x in rows}
+            nxt = next((x["id"] for x in chunk if x["id"] not in done), None)
+            fail = (r.returncode, (r.stderr or "")[-1500:], nxt)
+        return rows, fail
+
+    with ThreadPoolExecutor(max_workers=len(chunks) or 1) as ex:
+        outs = list(ex.map(one, chunks))
+    rows = [x for o, _ in outs for x in o]
+    return rows, [f for _, f in outs if f]
